@@ -100,23 +100,45 @@ def complex_vectors(rep, table):
                    node=w.loop)
         rep.ob("O19.1", "R5", fi, w.species_pos_ok, f"species end of G.{w.method}(r)",
                "the species end of the arc is the end that is not the reaction node", {"species_var": w.species_var}, node=w.loop)
-        # accumulations inside this walk
+        # accumulations inside this walk:  vec[i] += c   /   d[k] = d.get(k, 0) + c
         for n in walk_local(w.loop):
+            acc = None
+            if isinstance(n, ast.AugAssign) and isinstance(n.target, ast.Subscript) and isinstance(n.op, ast.Add):
+                acc = (n.target, n.value)
+            elif isinstance(n, ast.Assign) and len(n.targets) == 1 and isinstance(n.targets[0], ast.Subscript) and isinstance(n.value, ast.BinOp) and isinstance(n.value.op, ast.Add) \
+                    and pmatch(f"{norm(n.targets[0].value)}.get({norm(n.targets[0].slice)}, 0)", n.value.left) is not None:
+                acc = (n.targets[0], n.value.right)
+            if acc is None:
+                continue
+            tgt_, v = acc
+            vec = norm(tgt_.value)
+            gs = guards_of(pm, n, w.loop)
+            roles_here = [b.value for t, s in gs if s for c_ in ast.walk(t) if isinstance(c_, ast.Compare)
+                          for b in c_.comparators if isinstance(b, ast.Constant) and isinstance(b.value, str) and "role" in norm(c_.left)]
+            acc_role.setdefault(vec, set()).update(roles_here)
+            # coefficient: this arc's 'stoich', 1 when the arc carries none (the same default the stoichiometric matrix uses)
+            vsrc = origin(local_defs(w.loop), v) if isinstance(v, ast.Name) else v
+            getc = [c_ for c_ in ast.walk(vsrc) if isinstance(c_, ast.Call) and call_name(c_) == "get"]
+            okk = bool(getc) and is_const(getc[0].args[0], "stoich") and w.data_var is not None and norm(getc[0].func.value) == w.data_var \
+                and len(getc[0].args) > 1 and is_const(getc[0].args[1]) and getc[0].args[1].value == 1
+            rep.ob("O19.1", "R3b", fi, okk, alpha(n, fi.node), "the complex entry adds this arc's 'stoich' coefficient (default 1)", node=n)
+            idx = {x.id for x in ast.walk(tgt_.slice) if isinstance(x, ast.Name)}
+            rep.ob("O19.1", "R5", fi, w.species_var is not None and w.species_var in idx, alpha(n, fi.node),
+                   "the coefficient is added at the walked species' own index", node=n)
+    # a side that was first collected into a dict {species: coefficient} and is then copied into the vector: the vector inherits the dict's role
+    for lp2 in [l for l in walk_local(fi.node) if isinstance(l, ast.For) and pmatch("$d.items()", l.iter) is not None]:
+        dname = pmatch("$d.items()", lp2.iter)["d"]
+        if dname not in acc_role or not (isinstance(lp2.target, ast.Tuple) and len(lp2.target.elts) == 2):
+            continue
+        kv, cv = [norm(e) for e in lp2.target.elts]
+        for n in walk_local(lp2):
             if isinstance(n, ast.AugAssign) and isinstance(n.target, ast.Subscript) and isinstance(n.op, ast.Add):
                 vec = norm(n.target.value)
-                gs = guards_of(pm, n, w.loop)
-                roles_here = [b.value for t, s in gs if s for c_ in ast.walk(t) if isinstance(c_, ast.Compare)
-                              for b in c_.comparators if isinstance(b, ast.Constant) and isinstance(b.value, str) and "role" in norm(c_.left)]
-                acc_role.setdefault(vec, set()).update(roles_here)
-                # coefficient
-                v = n.value
-                getc = [c_ for c_ in ast.walk(v) if isinstance(c_, ast.Call) and call_name(c_) == "get"]
-                okk = bool(getc) and is_const(getc[0].args[0], "stoich") and w.data_var is not None and norm(getc[0].func.value) == w.data_var \
-                    and len(getc[0].args) > 1 and is_const(getc[0].args[1]) and getc[0].args[1].value == 1
-                rep.ob("O19.1", "R3b", fi, okk, alpha(n, fi.node), "the complex entry adds this arc's 'stoich' coefficient (default 1)", node=n)
+                acc_role.setdefault(vec, set()).update(acc_role[dname])
+                okc = norm(n.value) in (cv, f"int({cv})")
+                rep.ob("O19.1", "R3b", fi, okc, alpha(n, fi.node), "the collected coefficient of the species is what enters the complex vector", node=n)
                 idx = {x.id for x in ast.walk(n.target.slice) if isinstance(x, ast.Name)}
-                rep.ob("O19.1", "R5", fi, w.species_var is not None and w.species_var in idx, alpha(n, fi.node),
-                       "the coefficient is added at the walked species' own index", node=n)
+                rep.ob("O19.1", "R5", fi, kv in idx, alpha(n, fi.node), "the coefficient is added at the collected species' own index", node=n)
     # which vector is the reactant complex?
     chain = []
     for a in c.args[:2]:
